@@ -35,6 +35,11 @@ type versionJ struct {
 	NonceLen   int      `json:"nonceLen"`
 	KeysOk     bool     `json:"keysOk"`
 	Keys       []string `json:"keys"`
+	// the texts themselves: the model decides nameSafe/loginSafe/emailSafe from them (the three
+	// flags above, computed by the implementation, are then not used by the driver)
+	Name  *string `json:"name,omitempty"`
+	Login *string `json:"login,omitempty"`
+	Email *string `json:"email,omitempty"`
 }
 
 // a version as written on disk (entities/identity versionJSON)
@@ -67,7 +72,8 @@ func (v rawVersion) flags(commit string) versionJ {
 	return versionJ{Commit: commit, Times: times,
 		NameEmpty: text.Empty(v.Name), LoginEmpty: text.Empty(v.Login),
 		NameSafe: text.SafeOneLine(v.Name), LoginSafe: text.SafeOneLine(v.Login), EmailSafe: text.SafeOneLine(v.Email),
-		AvatarOk: v.Avatar == "" || text.ValidUrl(v.Avatar), NonceLen: len(nonce), KeysOk: true, Keys: []string{}}
+		AvatarOk: v.Avatar == "" || text.ValidUrl(v.Avatar), NonceLen: len(nonce), KeysOk: true, Keys: []string{},
+		Name: &v.Name, Login: &v.Login, Email: &v.Email}
 }
 
 // writeIdentityChain writes crafted versions as a commit chain; returns commit hashes and the identity id.
@@ -173,6 +179,7 @@ func runC09(c *runCtx) {
 	c09Merge(c)
 	c09Real(c)
 	c09Cache(c)
+	c09Text(c)
 	c09Foreign(c, "C09")
 }
 
@@ -676,4 +683,42 @@ func c09Cache(c *runCtx) {
 		remote.Close()
 		cleanupScratch()
 	}
+}
+
+// c09Text: util/text against its model (GitBugModel.Text): which texts are safe, and what the
+// clean-ups return.  Strings are valid UTF-8 (a Go string with invalid bytes reads as U+FFFD,
+// which is not a control character; such strings cannot be carried to the model).
+func c09Text(c *runCtx) {
+	r := c.rng.fork()
+	alphabet := []rune{'a', 'b', 'Z', '0', ' ', ' ', '\t', '\n', '\r', '\v', '\f', 0, 1, 0x1b, 0x1f, 0x7f, 0x80, 0x85, 0x9f, 0xa0, 0xad,
+		0x1680, 0x2000, 0x200a, 0x200b, 0x2028, 0x2029, 0x202f, 0x205f, 0x3000, 0xfeff, 'é', '日', '😀', '"', '\\', '<'}
+	N := c.pick(600, 6000)
+	var strs []string
+	var outs []any
+	for i := 0; i < N; i++ {
+		n := r.intn(9)
+		var rs []rune
+		for k := 0; k < n; k++ {
+			if r.chance(1, 6) {
+				rs = append(rs, '\r', '\n')
+			} else if r.chance(1, 10) {
+				rs = append(rs, rune(r.intn(0x250)))
+			} else {
+				rs = append(rs, pickOne(r, alphabet))
+			}
+		}
+		s := string(rs)
+		strs = append(strs, s)
+		out := map[string]any{"safe": text.Safe(s), "safeOneLine": text.SafeOneLine(s), "cleanup": text.Cleanup(s), "cleanupOneLine": text.CleanupOneLine(s)}
+		outs = append(outs, out)
+		c.count(fmt.Sprintf("text:safe=%v/oneLine=%v/cleanup-changes=%v", out["safe"], out["safeOneLine"], out["cleanup"] != s))
+		// the statements of the model's theorems, on the real functions
+		if !text.Safe(text.Cleanup(s)) || !text.SafeOneLine(text.CleanupOneLine(s)) {
+			c.violation(c.nCases, "C09/cleanup-unsafe", fmt.Sprintf("a cleaned text is not safe: %q", s), nil)
+		}
+		if one := text.CleanupOneLine(s); text.CleanupOneLine(one) != one {
+			c.violation(c.nCases, "C09/cleanup-not-idempotent", fmt.Sprintf("CleanupOneLine is not idempotent on %q", s), nil)
+		}
+	}
+	c.emit(map[string]any{"cmd": "text", "strings": strs}, outs)
 }
